@@ -419,90 +419,182 @@ theorem parse_render_quant {P : Params} (hw : P.isWhite ' ' = true) {t : List Ch
 theorem quantStr_eq_nil {o m : Bool} : quantStr o m = [] ↔ quantOpt o m = none := by
   cases o <;> cases m <;> simp [quantStr, quantOpt]
 
-/-- what re-parsing the canonical form gives, for every kind but `equal` -/
-theorem parse_render_nonequal {P : Params} (hw : P.isWhite ' ' = true) {e : Expectation}
-    (hnl : '\n' ∉ P.escPrintable e.expr) (hk : e.kind ≠ .equal) :
-    parse P (toExpressionString P e) =
-      match makeRule P e.kind (P.escPrintable e.expr) with
-      | none => .error .makeError
-      | some b => .ok ⟨e.kind, b, e.optional, e.multiline⟩ := by
-  simp only [toExpressionString, hk, if_false]
-  exact parse_render_kind hw hnl e.kind e.optional e.multiline
-
-theorem parse_render_equal_unprintable {P : Params} (hw : P.isWhite ' ' = true) {e : Expectation}
-    (hnl : '\n' ∉ P.escPrintable e.expr) (hk : e.kind = .equal) (hu : P.hasUnprintable e.expr = true) :
-    parse P (toExpressionString P e) =
-      match P.make .escaped (P.escPrintable e.expr) with
-      | none => .error .makeError
-      | some b => .ok ⟨.escaped, b, e.optional, e.multiline⟩ := by
-  simp only [toExpressionString, hk, hu, if_true]
-  exact parse_render_kind hw hnl .escaped e.optional e.multiline
-
-theorem parse_render_equal_quant {P : Params} (hw : P.isWhite ' ' = true) {e : Expectation}
-    (hnl : '\n' ∉ P.escPrintable e.expr) (hk : e.kind = .equal) (hu : P.hasUnprintable e.expr = false)
-    (hq : quantOpt e.optional e.multiline ≠ none) :
-    parse P (toExpressionString P e) = .ok ⟨.equal, utf8 (P.escPrintable e.expr), e.optional, e.multiline⟩ := by
-  have hq' : quantStr e.optional e.multiline ≠ [] := fun h => hq (quantStr_eq_nil.mp h)
-  simp only [toExpressionString, hk, hu, hq', if_true, if_false, Bool.false_eq_true]
-  exact parse_render_quant hw hnl e.optional e.multiline hq
-
-theorem parse_render_equal_bare {P : Params} {e : Expectation}
-    (hk : e.kind = .equal) (hu : P.hasUnprintable e.expr = false)
-    (hq : quantOpt e.optional e.multiline = none) :
-    parse P (toExpressionString P e) = parse P (P.escPrintable e.expr) := by
-  have hq' : quantStr e.optional e.multiline = [] := quantStr_eq_nil.mpr hq
-  simp only [toExpressionString, hk, hu, hq', if_true, if_false, Bool.false_eq_true]
-
 theorem quantOpt_none {o m : Bool} (h : quantOpt o m = none) : o = false ∧ m = false := by
   cases o <;> cases m <;> simp_all [quantOpt]
 
-/-- C08_roundtrip_partial -/
-theorem roundtrip {P : Params} (hw : P.isWhite ' ' = true) {e : Expectation}
-    (hnl : '\n' ∉ P.escPrintable e.expr)
-    (hmk : makeRule P e.kind (P.escPrintable e.expr) = some e.expr)
-    (hunp : e.kind = .equal → P.hasUnprintable e.expr = false)
-    (hshape : e.kind = .equal → quantOpt e.optional e.multiline = none →
-      ModifierShaped P.isWhite (P.escPrintable e.expr) = false) :
-    parse P (toExpressionString P e) = .ok e := by
-  by_cases hk : e.kind = .equal
-  · have hmk' : utf8 (P.escPrintable e.expr) = e.expr := by
-      rw [hk] at hmk; simpa [makeRule] using hmk
-    by_cases hq : quantOpt e.optional e.multiline = none
-    · rw [parse_render_equal_bare hk (hunp hk) hq]
-      have hno : ¬ ∃ p K Q, Modifier P.isWhite (P.escPrintable e.expr) p K Q := by
-        rintro ⟨p, K, Q, hm⟩
-        have := hshape hk hq
-        simp [ModifierShaped, (modifier_iff hnl).mp hm] at this
-      rw [parse_of_no_modifier hnl hno, hmk']
-      obtain ⟨ho, hm⟩ := quantOpt_none hq
-      cases e; simp_all
-    · rw [parse_render_equal_quant hw hnl hk (hunp hk) hq, hmk']
-      cases e; simp_all
-  · rw [parse_render_nonequal hw hnl hk, hmk]
+/-! ### `ends_like_modifier` over-approximates the grammar -/
 
-/-- the `equal` guard is needed: an `equal` expectation whose text ends in a modifier re-parses as
-    that modifier (here: `foo (glob)`, which is what `foo (glob) (equal)` parses to) -/
-theorem roundtrip_fails_equal_modifier_shaped {P : Params} (hw : P.isWhite ' ' = true) {b : List UInt8}
-    (hu : P.hasUnprintable b = false)
-    (ht : P.escPrintable b = ['f', 'o', 'o', ' ', '(', 'g', 'l', 'o', 'b', ')']) :
-    parse P (toExpressionString P ⟨.equal, b, false, false⟩) ≠ .ok ⟨.equal, b, false, false⟩ := by
-  rw [parse_render_equal_bare rfl hu rfl, ht]
-  have hm : Modifier P.isWhite ['f', 'o', 'o', ' ', '(', 'g', 'l', 'o', 'b', ')'] ['f', 'o', 'o'] ['g', 'l', 'o', 'b'] none :=
-    ⟨' ', hw, Or.inr (by decide), by simp, by simp, by simp⟩
-  rw [parse_of_modifier (by decide) hm (kind := .glob) (by decide)]
-  split <;> simp
+theorem splitLast_none {a : List Char} (h : '(' ∉ a) : splitLast a = none := by
+  induction a with
+  | nil => rfl
+  | cons c cs ih =>
+    have hc : c ≠ '(' := fun e => h (by simp [e])
+    simp [splitLast, ih (fun e => h (by simp [e])), hc]
 
-/-- for every kind but `equal` the round trip holds exactly when making the rule again from the
-    rendered text reproduces it -/
-theorem roundtrip_nonequal_iff {P : Params} (hw : P.isWhite ' ' = true) {e : Expectation}
-    (hnl : '\n' ∉ P.escPrintable e.expr) (hk : e.kind ≠ .equal) :
-    parse P (toExpressionString P e) = .ok e ↔
-      makeRule P e.kind (P.escPrintable e.expr) = some e.expr := by
-  rw [parse_render_nonequal hw hnl hk]
-  cases h : makeRule P e.kind (P.escPrintable e.expr) with
+theorem splitLast_append {b a : List Char} (h : '(' ∉ a) : splitLast (b ++ '(' :: a) = some (b, a) := by
+  induction b with
+  | nil => simp [splitLast, splitLast_none h]
+  | cons c cs ih => simp [splitLast, ih]
+
+theorem alts_lowerDash : ∀ K ∈ alts, K.reverse.all isLowerDash = true ∧
+    (stripQuantRev K.reverse).all isLowerDash = true := by decide
+
+/-- every text the grammar reads as expression + modifier ends like a modifier for the renderer -/
+theorem endsLike_of_modifier {W S : Char → Bool} (hsub : ∀ c, W c = true → S c = true)
+    {t p K : List Char} {Q : Option Char} (h : Modifier W t p K Q) : endsLikeModifier S t = true := by
+  obtain ⟨w, hw, hK, hQ, _, rfl⟩ := h
+  have hK' := kindNames_sub_alts hK
+  have hb := body_no_paren hK' hQ
+  have hsplit : splitLast (p ++ w :: '(' :: (K ++ (Q.toList ++ [')']))) =
+      some (p ++ [w], K ++ (Q.toList ++ [')'])) := by
+    have := splitLast_append (b := p ++ [w]) hb
+    simpa using this
+  have hl := alts_lowerDash K hK'
+  unfold endsLikeModifier
+  rw [hsplit]
+  cases Q with
+  | none => simp [hsub w hw]; simpa using hl.2
+  | some q => simp [hsub w hw, stripQuantRev, hQ q rfl]; simpa using hl.1
+
+theorem not_modifier_of_not_endsLike {W S : Char → Bool} (hsub : ∀ c, W c = true → S c = true)
+    {t : List Char} (h : endsLikeModifier S t = false) : ¬ ∃ p K Q, Modifier W t p K Q := by
+  rintro ⟨p, K, Q, hm⟩
+  rw [endsLike_of_modifier hsub hm] at h
+  cases h
+
+/-! ### the canonical form reads back -/
+
+theorem escapedMarker_no_newline : '\n' ∉ escapedMarker := by decide
+
+/-- what re-parsing the canonical form gives: the rule made from `sourceText` under `sourceKind`,
+    same quantifier -/
+theorem parse_render {P : Params} (hw : P.isWhite ' ' = true)
+    (hsub : ∀ c, P.isWhite c = true → P.isSpaceStd c = true) {e : Expectation}
+    (hnl : '\n' ∉ sourceText P e) :
+    parse P (toExpressionString P e) =
+      match makeRule P (sourceKind P e) (sourceText P e) with
+      | none => .error .makeError
+      | some b => .ok ⟨sourceKind P e, b, e.optional, e.multiline⟩ := by
+  obtain ⟨k, x, o, m⟩ := e
+  cases k with
+  | equal =>
+    simp only [sourceText] at hnl
+    by_cases hu : P.hasUnprintable x = true
+    · simp only [toExpressionString, sourceKind, sourceText, hu, if_true, true_and]
+      exact parse_render_kind hw hnl .escaped o m
+    · have hu' : P.hasUnprintable x = false := by simpa using hu
+      simp only [toExpressionString, sourceKind, sourceText, hu', Bool.false_eq_true, if_false, and_false]
+      by_cases hq : quantStr o m = []
+      · obtain ⟨rfl, rfl⟩ := quantOpt_none (quantStr_eq_nil.mp hq)
+        by_cases he : endsLikeModifier P.isSpaceStd (P.escPrintable x) = true
+        · simp only [hq, he, and_self, if_true]
+          have := parse_render_kind hw hnl .equal false false
+          simpa [quantStr, quantOpt] using this
+        · have he' : endsLikeModifier P.isSpaceStd (P.escPrintable x) = false := by simpa using he
+          simp only [hq, he', Bool.false_eq_true, and_false, if_false, if_true]
+          rw [parse_of_no_modifier hnl (not_modifier_of_not_endsLike hsub he')]
+          simp [makeRule]
+      · have hq' : quantOpt o m ≠ none := fun h => hq (quantStr_eq_nil.mpr h)
+        simp only [hq, false_and, if_false]
+        rw [parse_render_quant hw hnl o m hq']
+        simp [makeRule]
+  | escaped =>
+    have hk : sourceKind P ⟨.escaped, x, o, m⟩ = .escaped := by simp [sourceKind]
+    rw [hk]
+    by_cases hu : P.hasUnprintable x = true
+    · simp only [sourceText, hu, if_true] at hnl ⊢
+      simp only [toExpressionString, hu, if_true]
+      exact parse_render_kind hw hnl .escaped o m
+    · have hu' : P.hasUnprintable x = false := by simpa using hu
+      simp only [sourceText, hu', Bool.false_eq_true, if_false] at hnl ⊢
+      simp only [toExpressionString, hu', Bool.false_eq_true, if_false]
+      exact parse_render_kind hw hnl .escaped o m
+  | glob =>
+    have hk : sourceKind P ⟨.glob, x, o, m⟩ = .glob := by simp [sourceKind]
+    rw [hk]
+    by_cases hu : P.hasUnprintable x = true
+    · simp only [sourceText, hu, if_true] at hnl ⊢
+      simp only [toExpressionString, hu, if_true]
+      exact parse_render_kind hw hnl .glob o m
+    · have hu' : P.hasUnprintable x = false := by simpa using hu
+      simp only [sourceText, hu', Bool.false_eq_true, if_false] at hnl ⊢
+      simp only [toExpressionString, hu', Bool.false_eq_true, if_false]
+      exact parse_render_kind hw hnl .glob o m
+  | regex =>
+    have hk : sourceKind P ⟨.regex, x, o, m⟩ = .regex := by simp [sourceKind]
+    rw [hk]
+    simp only [sourceText] at hnl ⊢
+    exact parse_render_kind hw hnl .regex o m
+  | noEol =>
+    have hk : sourceKind P ⟨.noEol, x, o, m⟩ = .noEol := by simp [sourceKind]
+    rw [hk]
+    simp only [sourceText] at hnl ⊢
+    exact parse_render_kind hw hnl .noEol o m
+
+/-- C08_roundtrip: the canonical form reads back iff the rule constructor reproduces the
+    expression from the text it is handed -/
+theorem roundtrip_iff {P : Params} (hw : P.isWhite ' ' = true)
+    (hsub : ∀ c, P.isWhite c = true → P.isSpaceStd c = true) {e : Expectation}
+    (hnl : '\n' ∉ sourceText P e) :
+    parse P (toExpressionString P e) = .ok (reread P e) ↔
+      makeRule P (sourceKind P e) (sourceText P e) = some e.expr := by
+  rw [parse_render hw hsub hnl]
+  cases h : makeRule P (sourceKind P e) (sourceText P e) with
   | none => simp
   | some b =>
     cases e
-    simp
+    simp [reread]
+
+theorem roundtrip {P : Params} (hw : P.isWhite ' ' = true)
+    (hsub : ∀ c, P.isWhite c = true → P.isSpaceStd c = true) {e : Expectation}
+    (hnl : '\n' ∉ sourceText P e)
+    (hmk : makeRule P (sourceKind P e) (sourceText P e) = some e.expr) :
+    parse P (toExpressionString P e) = .ok (reread P e) :=
+  (roundtrip_iff hw hsub hnl).mpr hmk
+
+theorem reread_eq {P : Params} {e : Expectation} (h : e.kind = .equal → P.hasUnprintable e.expr = false) :
+    reread P e = e := by
+  cases e with
+  | mk k x o m =>
+    simp only [reread, sourceKind]
+    by_cases hk : k = .equal
+    · have := h hk; simp_all
+    · simp [hk]
+
+/-- regression (was the witness of the defect repaired by 2c946ec): the `equal` expectation
+    `foo (glob)`, which is what `foo (glob) (equal)` parses to, reads back -/
+theorem roundtrip_equal_modifier_shaped {P : Params} (hw : P.isWhite ' ' = true)
+    (hsub : ∀ c, P.isWhite c = true → P.isSpaceStd c = true) {b : List UInt8}
+    (hu : P.hasUnprintable b = false)
+    (ht : P.escPrintable b = ['f', 'o', 'o', ' ', '(', 'g', 'l', 'o', 'b', ')'])
+    (hb : utf8 ['f', 'o', 'o', ' ', '(', 'g', 'l', 'o', 'b', ')'] = b) :
+    toExpressionString P ⟨.equal, b, false, false⟩ =
+      ['f', 'o', 'o', ' ', '(', 'g', 'l', 'o', 'b', ')', ' ', '(', 'e', 'q', 'u', 'a', 'l', ')'] ∧
+    parse P (toExpressionString P ⟨.equal, b, false, false⟩) = .ok ⟨.equal, b, false, false⟩ := by
+  have hm : Modifier P.isWhite ['f', 'o', 'o', ' ', '(', 'g', 'l', 'o', 'b', ')'] ['f', 'o', 'o'] ['g', 'l', 'o', 'b'] none :=
+    ⟨' ', hw, Or.inr (by decide), by simp, by simp, by simp⟩
+  have he := endsLike_of_modifier hsub hm
+  constructor
+  · simp [toExpressionString, hu, ht, he, quantStr, quantOpt, Kind.name]
+  · have hnl : '\n' ∉ sourceText P ⟨.equal, b, false, false⟩ := by simp [sourceText, ht]
+    have := roundtrip hw hsub (e := ⟨.equal, b, false, false⟩) hnl (by simp [sourceKind, sourceText, hu, ht, makeRule, hb])
+    rw [this, reread_eq (by intro _; exact hu)]
+
+/-- the open finding: when the `escaped` constructor does not give the bytes back (it strips a
+    trailing ` (no-eol)`), the `equal` expectation `a<TAB> (no-eol)` does not read back -/
+theorem roundtrip_fails_no_eol_strip {P : Params} (hw : P.isWhite ' ' = true)
+    (hsub : ∀ c, P.isWhite c = true → P.isSpaceStd c = true) {b b' : List UInt8}
+    (hu : P.hasUnprintable b = true)
+    (ht : P.escPrintable b = ['a', '\\', 't', ' ', '(', 'n', 'o', '-', 'e', 'o', 'l', ')'])
+    (hmk : P.make .escaped ['a', '\\', 't', ' ', '(', 'n', 'o', '-', 'e', 'o', 'l', ')'] = some b')
+    (hne : b' ≠ b) :
+    parse P (toExpressionString P ⟨.equal, b, false, false⟩) = .ok ⟨.escaped, b', false, false⟩ ∧
+    parse P (toExpressionString P ⟨.equal, b, false, false⟩) ≠ .ok (reread P ⟨.equal, b, false, false⟩) := by
+  have hnl : '\n' ∉ sourceText P ⟨.equal, b, false, false⟩ := by simp [sourceText, ht]
+  have h := parse_render hw hsub hnl
+  simp only [sourceKind, sourceText, hu, ht, and_self, if_true, makeRule, hmk] at h
+  refine ⟨h, ?_⟩
+  rw [h]
+  simp [reread, sourceKind, hu, hne]
 
 end Scrut.Grammar
